@@ -7,17 +7,14 @@ mod json;
 mod rng;
 mod spec;
 
-#[cfg(feature = "full")]
 mod build;
 #[cfg(feature = "full")]
 mod child;
-#[cfg(feature = "full")]
 mod deriv;
-#[cfg(feature = "full")]
+mod emit;
 mod gen;
 #[cfg(feature = "full")]
 mod model;
-#[cfg(feature = "full")]
 mod outcome;
 mod props;
 #[cfg(feature = "full")]
@@ -43,7 +40,6 @@ fn cmd_run(args: &[String]) -> i32 {
     let only: Option<u64> = arg_value(args, "--only-case").map(|s| s.parse().expect("case"));
     let verbose = args.iter().any(|a| a == "--verbose");
 
-    #[cfg(feature = "full")]
     outcome::install_panic_hook();
 
     let mut rep = props::Report::default();
@@ -153,6 +149,24 @@ fn main() {
     let code = match args.first().map(String::as_str) {
         Some("run") => cmd_run(&args[1..]),
         Some("merge") => cmd_merge(&args[1..]),
+        Some("emit") => emit::cmd_emit(&args[1..]),
+        Some("emit-witness") => {
+            outcome::install_panic_hook();
+            match args.get(1).and_then(|n| emit::witness(n)) {
+                Some(true) => {
+                    eprintln!("REPRODUCES");
+                    10
+                }
+                Some(false) => {
+                    eprintln!("does not reproduce");
+                    0
+                }
+                None => {
+                    eprintln!("unknown witness");
+                    3
+                }
+            }
+        }
         #[cfg(feature = "full")]
         Some("witness") => {
             outcome::install_panic_hook();
